@@ -25,7 +25,7 @@ schedule (after a call ran out of input the next `g` bytes of the schedule becom
 * animations with the final refused call (`PolledAfterEndOfImage` is not a successful result, so the comparison of C05 ends
   before it: `C05_resume_until_failure`): the results on all calls BEGIN with the frames (`C09_any_delivery_until_refusal`);
   that the retrying caller's last result is the refusal too is stated (`C09_any_delivery_with_refusal_statement`), true on
-  the examples, and NOT proved — its doc comment names the two missing lemmas.
+  the examples, and proved later in Props/C04DeliveryEnd.lean (C09_any_delivery_with_refusal); at the time of this file not proved — its doc comment names the two missing lemmas.
 
 Hypotheses beyond those of the C01 / C09 theorems:
 * `file.length < 2^32` (the model's `Decoder` invariant `PreInv`, `rinv_init`);
@@ -299,7 +299,7 @@ theorem C09_any_delivery_prefix (cfg : Cfg) (t : TCfg) (f : Flags) (opts : Optio
 
 set_option linter.unusedVariables false in
 /-- the statement with the LAST result pinned down as well — the retrying caller, too, is refused behind the last frame.
-    NOT proved here (true on the examples below).  Two facts are missing, neither of which the existing theorems export:
+    proved later in Props/C04DeliveryEnd.lean (C09_any_delivery_with_refusal); at the time of this file not proved here (true on the examples below).  Two facts are missing, neither of which the existing theorems export:
     (1) `Reader.resumeRun_spec` / `Reader.runUntilEof_spec` relate the readers of the two callers only while calls remain
     (`JSt … [] ` is just `A.visible ≤ L`): needed is that, when all calls of `good` have returned, the retrying caller's
     reader still lags behind the reader that saw everything (`LagSome`, which `runUntilEof_spec` establishes internally
